@@ -440,6 +440,9 @@ func (vc *VC) indexVal(base, idx Val, st *State) Val {
 		if len(parts) == 2 && parts[1] == "Bool" {
 			k = KBool
 		}
+		if len(parts) == 2 && parts[1] == "Str" {
+			return Val{K: KStr, T: types.Typ[types.String], S: sx("select", base.S, idx.S)}
+		}
 		return Val{K: k, T: tInt, S: sx("select", base.S, idx.S)}
 	case KSlice:
 		et := elemTypeOf(base.T)
@@ -700,6 +703,8 @@ func ghostSort(ret string) (string, Kind) {
 		return "Bool", KBool
 	case "[]int":
 		return "(Array Int Int)", KArr
+	case "[]string":
+		return "(Array Int Str)", KArr
 	case "string":
 		return "Str", KStr
 	}
